@@ -63,6 +63,15 @@ fn viol(c: &mut Ctx, path: Path, class: &str, detail: String, req: &Request) {
     );
 }
 
+/// Class signature of a panic: known sites get a readable name.
+fn panic_sig(p: &str) -> String {
+    if p.contains("cannot be present when serializing") || p.contains("when serializing to the V") {
+        "panic:freeze-unwrap:bundle-not-representable-in-version @ zcash_primitives/src/transaction/builder.rs".into()
+    } else {
+        format!("panic:{}", panic_class(p))
+    }
+}
+
 fn path_name(p: Path) -> &'static str {
     match p {
         Path::Build => "build",
@@ -78,6 +87,13 @@ fn run_case(c: &mut Ctx, rng: &mut ChaCha20Rng, path: Path, mut req: Request) {
     if path == Path::MockBuild {
         req.fee = FeeSpec::Std;
     }
+    if matches!(path, Path::Build | Path::MockBuild) {
+        // `build` proves Orchard-family bundles for real (proving key ≈ 15 s + seconds per action);
+        // these two paths are the proof-free volume, so no all-dummy bundle may be demanded here.
+        // (`bundle_required` is exercised by the PCZT and real-prover paths.)
+        req.orchard_pad.required = false;
+        req.ironwood_pad.required = false;
+    }
     if path == Path::Deferred {
         return run_deferred(c, rng, req);
     }
@@ -88,7 +104,7 @@ fn run_case(c: &mut Ctx, rng: &mut ChaCha20Rng, path: Path, mut req: Request) {
     let fee = match guard(|| make_builder(&c.w, &req, &m0).map(|(b, _)| b.get_fee(&rule))) {
         Err(p) => {
             c.r.case(&req.shape(), true);
-            return viol(c, path, &format!("panic:{}", panic_class(&p)), format!("add/get_fee panicked: {p}"), &req);
+            return viol(c, path, &panic_sig(&p), format!("add/get_fee panicked: {p}"), &req);
         }
         Ok(Err(refusal)) => {
             c.r.case(&("refused", req.shape()), false);
@@ -141,7 +157,7 @@ fn run_case(c: &mut Ctx, rng: &mut ChaCha20Rng, path: Path, mut req: Request) {
     c.r.count(&format!("cases:{}", path_name(path)), 1);
     c.r.count(&format!("epoch:{:?}", req.epoch()), 1);
     match res {
-        Err(p) => viol(c, path, &format!("panic:{}", panic_class(&p)), format!("build panicked: {p}"), &req),
+        Err(p) => viol(c, path, &panic_sig(&p), format!("build panicked: {p}"), &req),
         Ok(Err(refusal)) => {
             c.r.count(&format!("refused:{}:{}", refusal.step, refusal.err), 1);
             c.r.count("requests_refused_while_adding", 1);
@@ -234,10 +250,32 @@ fn judge_emitted(c: &mut Ctx, path: Path, req: &Request, m: &Materialised, fee: 
     match em {
         Emitted::Tx(res) => {
             let tx: &Transaction = res.transaction();
+            // Judge the wire form (what would be broadcast), not only the in-memory value.
+            let mut bytes = vec![];
+            let wire = match tx.write(&mut bytes) {
+                Ok(()) => match Transaction::read(&bytes[..], tx.consensus_branch_id()) {
+                    Ok(t2) => {
+                        if t2.txid() == tx.txid() {
+                            c.r.count("tx_reparsed_same_txid", 1);
+                        } else {
+                            findings.push(("reparsed-txid-differs".into(), "write/read changes the txid".into()));
+                        }
+                        Some(t2)
+                    }
+                    Err(e) => {
+                        findings.push(("built-tx-does-not-parse".into(), format!("{e}")));
+                        None
+                    }
+                },
+                Err(e) => {
+                    findings.push(("built-tx-does-not-serialise".into(), format!("{e}")));
+                    None
+                }
+            };
+            let tx: &Transaction = wire.as_ref().unwrap_or(tx);
             findings.extend(check_contents(&c.w, req, m, &**tx, &mut obs));
             findings.extend(check_signatures_tx(&c.w, req, m, tx, &mut so));
-            // metadata (diagnostic only: the statement does not speak about it)
-            // library's own accounting must agree with ours
+            // the library's own accounting must agree with ours
             let lib_fee = tx.fee_paid(|op| {
                 Ok::<_, zcash_protocol::value::BalanceError>(
                     req.t_in
@@ -257,17 +295,8 @@ fn judge_emitted(c: &mut Ctx, path: Path, req: &Request, m: &Materialised, fee: 
                     }
                 }
             }
-            // serialisation round trip keeps the identifier (sanity for the shape we counted)
-            let mut bytes = vec![];
-            if tx.write(&mut bytes).is_ok() {
-                match Transaction::read(&bytes[..], tx.consensus_branch_id()) {
-                    Ok(t2) if t2.txid() == tx.txid() => c.r.count("tx_reparsed_same_txid", 1),
-                    Ok(_) => findings.push(("reparsed-txid-differs".into(), "write/read changes the txid".into())),
-                    Err(e) => findings.push(("built-tx-does-not-parse".into(), format!("{e}"))),
-                }
-            }
             if path == Path::Proved {
-                verify_proved(c, tx, &mut findings);
+                verify_proved(c, req, m, tx, &mut findings);
             }
         }
         Emitted::Pczt(res) => {
@@ -275,7 +304,14 @@ fn judge_emitted(c: &mut Ctx, path: Path, req: &Request, m: &Materialised, fee: 
             findings.extend(judge_pczt(c, req, m, pczt_parts, &mut obs, &mut so));
         }
     }
-    for (class, detail) in findings {
+    for (mut class, detail) in findings {
+        if path == Path::Deferred && class == "fee-paid-differs-from-rule" {
+            let idle_i = req.i_spend.is_empty() && req.i_out.is_empty() && obs.shape.i_actions == 0;
+            let idle_o = req.o_spend.is_empty() && req.o_out.is_empty() && obs.shape.o_actions == 0;
+            if (idle_i && req.ironwood_pad.required) || (idle_o && req.orchard_pad.required) {
+                class = "fee-paid-differs-from-rule:required-empty-bundle-charged-but-not-built".into();
+            }
+        }
         viol(c, path, &class, detail, req);
     }
     // coverage
@@ -283,7 +319,9 @@ fn judge_emitted(c: &mut Ctx, path: Path, req: &Request, m: &Materialised, fee: 
     c.r.count("ovk_recovered", obs.ovk_recovered);
     if obs.ovk_not_recovered > 0 {
         c.r.count("ovk_not_recovered", obs.ovk_not_recovered);
-        c.r.note("an output added with an OVK could not be recovered with it (diagnostic; not part of the statement)");
+        for n in &obs.ovk_notes {
+            c.r.note(format!("an output added with an OVK could not be recovered with it (diagnostic; not part of the statement): {n} {:?}", req.epoch()));
+        }
     }
     c.r.count("padding_outputs_seen", obs.padding_outputs);
     c.r.count("padding_outputs_decrypted_zero", obs.padding_decrypted_zero);
@@ -443,7 +481,12 @@ fn judge_pczt(
             return f;
         }
     };
-    let sigs: Option<Vec<Vec<u8>>> = p.transparent().inputs().iter().map(|i| i.script_sig().clone()).collect();
+    let mut sigs: Option<Vec<Vec<u8>>> = None;
+    let _ = Verifier::new(p).with_transparent::<(), _>(|b| {
+        use zcash_script::script::Evaluable;
+        sigs = b.inputs().iter().map(|i| i.script_sig().as_ref().map(|s| s.to_bytes())).collect();
+        Ok(())
+    });
     match sigs {
         Some(s) => {
             c.r.count("pczt_spends_finalised", 1);
@@ -515,7 +558,7 @@ fn run_deferred(c: &mut Ctx, rng: &mut ChaCha20Rng, mut req: Request) {
     let fee = match guard(|| mk(&req).map(|b| b.get_fee(&rule))) {
         Err(p) => {
             c.r.case(&req.shape(), true);
-            return viol(c, path, &format!("panic:{}", panic_class(&p)), format!("panicked: {p}"), &req);
+            return viol(c, path, &panic_sig(&p), format!("panicked: {p}"), &req);
         }
         Ok(Err(e)) => {
             c.r.case(&("refused", req.shape()), false);
@@ -547,28 +590,14 @@ fn run_deferred(c: &mut Ctx, rng: &mut ChaCha20Rng, mut req: Request) {
     let mut mrng = rng.clone();
     let m = materialise(&c.w, &req, &mut mrng);
     match res {
-        Err(p) => viol(c, path, &format!("panic:{}", panic_class(&p)), format!("panicked: {p}"), &req),
+        Err(p) => viol(c, path, &panic_sig(&p), format!("panicked: {p}"), &req),
         Ok(Err(e)) => c.r.count(&format!("refused:deferred:{e}"), 1),
         Ok(Ok(Err(e))) => judge_error(c, path, &req, fee, &e),
         Ok(Ok(Ok(res))) => {
-            // anchors are absent: compare against the placeholder the PCZT layer substitutes
-            let mut req2 = req.clone();
-            let spends_o = std::mem::take(&mut req2.o_spend);
-            let spends_i = std::mem::take(&mut req2.i_spend);
-            // keep spends for nullifier / value checks but skip the anchor comparison by handing
-            // the oracle the bundle's own anchor
-            req2.o_spend = spends_o;
-            req2.i_spend = spends_i;
+            // anchors (and witnesses) are deferred: nothing to compare them with
+            let req2 = req.clone();
             let mut m2 = m;
-            let o_anchor = res.pczt_parts.orchard.as_ref().map(|b| *b.anchor());
-            let i_anchor = res.pczt_parts.ironwood.as_ref().map(|b| *b.anchor());
-            if let Some(a) = o_anchor {
-                m2.o_anchor = a;
-            }
-            if let Some(a) = i_anchor {
-                m2.i_anchor = a;
-            }
-            // deferred bundles must not carry witnesses
+            m2.anchors_deferred = true;
             judge_emitted(c, path, &req2, &m2, fee, Emitted::Pczt(Box::new(res)));
         }
     }
@@ -580,20 +609,22 @@ fn run_deferred(c: &mut Ctx, rng: &mut ChaCha20Rng, mut req: Request) {
 
 static ORCHARD_VKS: OnceLock<std::sync::Mutex<Vec<(String, orchard::circuit::VerifyingKey)>>> = OnceLock::new();
 
-fn verify_proved(c: &mut Ctx, tx: &Transaction, findings: &mut Vec<Finding>) {
+fn verify_proved(c: &mut Ctx, req: &Request, mat: &Materialised, tx: &Transaction, findings: &mut Vec<Finding>) {
     use zcash_primitives::transaction::{sighash::SignableInput, sighash::signature_hash, txid::TxIdDigester};
     // shielded sighash: no transparent context needed when there are no transparent inputs
     // (for transactions with transparent inputs the coins are needed; rebuild with them)
     let td = tx.clone().into_data();
-    let has_tin = td.transparent_bundle().is_some_and(|b| !b.vin.is_empty());
-    if has_tin {
-        // The shielded sighash commits to the input coins; covered by the signature check path.
+    let vin: Vec<([u8; 32], u32)> = td
+        .transparent_bundle()
+        .map(|b| b.vin.iter().map(|i| (*i.prevout().hash(), i.prevout().n())).collect())
+        .unwrap_or_default();
+    let Some(spent) = coins_in_vin_order(req, mat, &vin) else {
+        return;
+    };
+    if !vin.is_empty() {
         c.r.count("proved_with_transparent_inputs", 1);
     }
-    let coins: Vec<zcash_transparent::bundle::TxOut> = vec![];
-    if has_tin {
-        return;
-    }
+    let coins: Vec<zcash_transparent::bundle::TxOut> = spent.into_iter().map(|c| c.1).collect();
     let td = to_sig_auth(td, coins);
     let digests = td.digest(TxIdDigester);
     let sighash = *signature_hash(&td, &SignableInput::Shielded, &digests).as_ref();
@@ -630,6 +661,87 @@ fn verify_proved(c: &mut Ctx, tx: &Transaction, findings: &mut Vec<Finding>) {
 
 // ---------------------------------------------------------------------------------------------
 
+fn base_request(height: u32) -> Request {
+    Request {
+        height,
+        version: None,
+        version_first: false,
+        expiry: None,
+        sapling_anchor: false,
+        orchard_anchor: false,
+        ironwood_anchor: false,
+        orchard_pad: Pad::DEFAULT,
+        ironwood_pad: Pad::DEFAULT,
+        t_in: vec![],
+        t_out: vec![],
+        s_spend: vec![],
+        s_out: vec![],
+        o_spend: vec![],
+        o_out: vec![],
+        i_spend: vec![],
+        i_out: vec![],
+        fee: FeeSpec::Std,
+        delta: 0,
+        tunable: Tunable::TIn(0),
+    }
+}
+
+fn probes(rng: &mut ChaCha20Rng) -> Vec<(Path, Request)> {
+    use zcash_transparent::address::TransparentAddress;
+    let mut v = vec![];
+    let t_in = |rng: &mut ChaCha20Rng, n: usize| -> Vec<TIn> {
+        (0..n)
+            .map(|k| TIn {
+                kind: TInKind::P2pkh { acct: k % 3, key: k % 4 },
+                outpoint: (rng.r#gen(), k as u32),
+                value: 1_000_000,
+            })
+            .collect()
+    };
+    let t_out = |n: usize| -> Vec<TOut> {
+        (0..n)
+            .map(|k| TOut::Pay {
+                addr: TransparentAddress::PublicKeyHash([k as u8 + 1; 20]),
+                value: 10_000,
+            })
+            .collect()
+    };
+    let req = Pad { required: true, min: None };
+    // explicit V5 after NU6.3 while the padding policy demands an (all-dummy) Ironwood bundle
+    for (ver, first) in [(Ver::V5, true), (Ver::V5, false), (Ver::V4, false)] {
+        let mut r = base_request(H_NU6_3 + 1);
+        r.version = Some(ver);
+        r.version_first = first;
+        r.ironwood_anchor = true;
+        r.ironwood_pad = req;
+        r.t_in = t_in(rng, 2);
+        r.t_out = t_out(2);
+        v.push((Path::Pczt, r));
+    }
+    // deferred-anchor builder with an all-dummy Ironwood bundle demanded
+    {
+        let mut r = base_request(H_NU6_3 + 2);
+        r.orchard_anchor = true;
+        r.ironwood_anchor = true;
+        r.ironwood_pad = req;
+        let (rho, rseed) = gen_rho_rseed(rng);
+        r.o_spend = vec![OSpend { acct: 0, scope: zip32::Scope::External, div: 0, value: 50_000, rho, rseed, v3: false, bad_path: false }];
+        r.tunable = Tunable::OSpend(0);
+        v.push((Path::Deferred, r));
+    }
+    // explicit V4 after NU5 while the padding policy demands an (all-dummy) Orchard bundle
+    for h in [H_NU5, H_NU6_2, H_NU6_3] {
+        let mut r = base_request(h);
+        r.version = Some(Ver::V4);
+        r.orchard_anchor = true;
+        r.orchard_pad = req;
+        r.t_in = t_in(rng, 2);
+        r.t_out = t_out(2);
+        v.push((Path::Pczt, r));
+    }
+    v
+}
+
 fn main() {
     vh_common::install_panic_hook();
     let args = Args::parse();
@@ -645,6 +757,15 @@ fn main() {
     let max_cases = args.get_u64("cases", if thorough { 4_000 } else { 400 });
     let proved_cases = args.get_u64("proved", if thorough { 24 } else { 1 });
     let proved_share = if thorough { 0.45 } else { 0.55 };
+
+    // Phase 0: a few hand-made requests at interaction points the random generator reaches rarely
+    // (explicit version that lacks a pool whose all-dummy bundle is demanded by the padding policy).
+    if args.shard == 0 {
+        for (path, req) in probes(&mut rng) {
+            c.r.count("handmade_probes", 1);
+            run_case(&mut c, &mut rng, path, req);
+        }
+    }
 
     // Phase 1: volume without proofs, until the share of the budget reserved for proving.
     let mut n = 0u64;
@@ -696,7 +817,10 @@ fn main() {
                 },
             )
         };
-        let req = gen_request(&mut rng, opts);
+        let mut req = gen_request(&mut rng, opts);
+        if path == Path::Deferred && req.height < H_NU6_3 && rng.gen_bool(0.9) {
+            req.height = H_NU6_3 + rng.gen_range(0..3);
+        }
         run_case(&mut c, &mut rng, path, req);
     }
     c.r.count("unproved_cases", n);
@@ -705,6 +829,39 @@ fn main() {
     // (one proving key ≈ 15 s to build).
     let gens: [(u32, u32); 3] = [(H_NU5, H_NU6_2 - 1), (H_NU6_2, H_NU6_3 - 1), (H_NU6_3, 50_000)];
     let (lo, hi) = gens[(args.shard as usize + args.seed as usize) % 3];
+    // hand-made: all-dummy bundle demanded in a pool the explicit version lacks (needs real proving)
+    if proved_cases > 0 && args.shard < 3 {
+        let mut ps = vec![];
+        let t_in = |rng: &mut ChaCha20Rng| TIn {
+            kind: TInKind::P2pkh { acct: 0, key: 0 },
+            outpoint: (rng.r#gen(), 0),
+            value: 1_000_000,
+        };
+        let t_out = || TOut::Pay {
+            addr: zcash_transparent::address::TransparentAddress::PublicKeyHash([9; 20]),
+            value: 10_000,
+        };
+        let mut r = base_request(lo);
+        r.version = Some(Ver::V4);
+        r.orchard_anchor = true;
+        r.orchard_pad = Pad { required: true, min: None };
+        r.t_in = vec![t_in(&mut rng), t_in(&mut rng)];
+        r.t_out = vec![t_out(), t_out()];
+        ps.push(r);
+        if lo >= H_NU6_3 {
+            let mut r = base_request(lo + 1);
+            r.version = Some(Ver::V5);
+            r.ironwood_anchor = true;
+            r.ironwood_pad = Pad { required: true, min: None };
+            r.t_in = vec![t_in(&mut rng), t_in(&mut rng)];
+            r.t_out = vec![t_out(), t_out()];
+            ps.push(r);
+        }
+        for r in ps {
+            c.r.count("handmade_probes", 1);
+            run_case(&mut c, &mut rng, Path::Proved, r);
+        }
+    }
     let mut done = 0;
     let mut tries = 0;
     while done < proved_cases && tries < proved_cases * 40 && c.r.time_left() {
